@@ -27,9 +27,9 @@ CLAIMED = {
    "Trusted: my transcription of the table and the 'necessary parentheses' rule (child parenthesised iff lower precedence, or equal precedence on the non-associative side; different precedence-0 constructs in tail position are always parenthesised because the table does not order them); comments after the last token are not generated (not 'between tokens').",
    "bounded-exhaustive enumeration + proptest random trees, oracle = tree built from constructors per the documented table", "§3 C09"),
  "C08": ("vp-inproc", "exploration",
-   "Type-directed program generation against an independent reference interpreter: 100 000 (quick) / 3 000 000 (thorough) generated expressions (25% ill-typed by construction, incl. type errors hidden behind the empty array's element type) plus a bounded-exhaustive layer (every binary operator x 18 x 18 leaves of all types, unary, index, tuple access, calls, ?:/if; depth 2 over 7 leaves) are parsed, type-checked exactly as the filter / hashBy / log-format loaders do, and - if accepted - evaluated in the real rule environment (create_context over generated request attributes). Accepted => no panic, result of the accepted type, equal to the reference value where the documentation defines one, or a dynamic error (division by zero, overflow, index, regex, non-numeric) that some evaluated sub-term can produce; && / || / if / ?: must not evaluate the operand they skip.",
+   "Type-directed program generation against an independent reference interpreter: 100 000 (quick) / 3 000 000 (thorough) generated expressions (25% ill-typed by construction, incl. type errors hidden behind the empty array's element type) plus a bounded-exhaustive layer (every binary operator x 18 x 18 leaves of all types, unary, index, tuple access, calls, ?:/if; depth 2 over 7 leaves) are parsed, type-checked exactly as the filter / hashBy / log-format loaders do, and - if accepted - evaluated in the real rule environment (create_context over generated request attributes). Accepted => no panic, result of the accepted type, equal to the reference value where the documentation defines one, or a dynamic error (division by zero, overflow, index, regex, non-numeric) that some evaluated sub-term can produce; && / || / if / ?: must not evaluate the operand they skip. Thorough tier only: a coverage-guided libFuzzer campaign (8 forks x 600 s, token dictionary, 1 500 generated seed programs) over arbitrary source text with the reference-free core of the oracle (no panic; accepted => value of the declared type or a documented dynamic error).",
    "Trusted: the reference semantics of DESIGN.md Appendix A (deliberately agnostic where the documentation is silent: overflow may wrap or error, negative indexes may count from the end, to_string of a string is judged for type only); error classes are recognised by message text; the parser's documented nesting limit (16) is tolerated.",
-   "proptest type-directed generation + bounded-exhaustive enumeration vs reference interpreter (differential)", "§3 C08, Appendix A"),
+   "proptest type-directed generation + bounded-exhaustive enumeration vs reference interpreter (differential); libFuzzer campaign over source text in the thorough tier", "§3 C08, Appendix A"),
  "C02": ("both", "exploration",
    "Model check of the real process_request over generated rule lists x requests x connector feature sets (20 000 quick / 400 000 thorough): each filter has an independent reference evaluation (error => no match); exactly the predicted connector's connect() must run once and be recorded, or none at all with on_error only (deny / no rule / feature missing). cidr_match is compared with own mask arithmetic for all prefix lengths at the network boundaries (30 000 / 1 000 000). End-to-end: 400 (quick) / 12 000 (thorough) generated rule lists installed with POST /api/rules on real proxies, 3 probes each (HTTP CONNECT, SOCKS5, SOCKS4/4a, reverse listener, SOCKS5 UDP ASSOCIATE) from harness-bound source ports with a marked payload pipelined behind the handshake: the reference connector serves (identified by the address the origin sees), exactly one upstream connection carries exactly the payload; on deny / no rule / unsupported feature no origin or upstream accepts anything and the payload appears nowhere; filters over request.source / request.listener name the real socket values of probe i.",
    "Trusted: the reference interpreter shared with C08 (restricted here to atoms inside its defined fragment), harness connectors that record calls.",
